@@ -80,11 +80,13 @@ package core
 //@   modifies nothing
 //@   ensures [fresh] typeis(r0, *initFlowSynchronizationImpl) && fresh(r0)
 //@   ensures [initial] gateInitial(r0.(*initFlowSynchronizationImpl).runtimeReadyGate, 1) && gateInitial(r0.(*initFlowSynchronizationImpl).externalAgentsRegisteredGate, 0) && gateInitial(r0.(*initFlowSynchronizationImpl).agentReadyGate, 65535) && gateInitial(r0.(*initFlowSynchronizationImpl).runtimeRestoreReadyGate, 1)
+//@   ensures [own-gates] isInitFlow(r0) && fresh(r0.(*initFlowSynchronizationImpl).runtimeReadyGate) && fresh(r0.(*initFlowSynchronizationImpl).externalAgentsRegisteredGate) && fresh(r0.(*initFlowSynchronizationImpl).agentReadyGate) && fresh(r0.(*initFlowSynchronizationImpl).runtimeRestoreReadyGate)
 
 //@ func NewInvokeFlowSynchronization
 //@   modifies nothing
 //@   ensures [fresh] typeis(r0, *invokeFlowSynchronizationImpl) && fresh(r0)
 //@   ensures [initial] gateInitial(r0.(*invokeFlowSynchronizationImpl).runtimeReadyGate, 1) && gateInitial(r0.(*invokeFlowSynchronizationImpl).runtimeResponseGate, 1) && gateInitial(r0.(*invokeFlowSynchronizationImpl).agentReadyGate, 65535)
+//@   ensures [own-gates] isInvokeFlow(r0) && fresh(r0.(*invokeFlowSynchronizationImpl).runtimeReadyGate) && fresh(r0.(*invokeFlowSynchronizationImpl).runtimeResponseGate) && fresh(r0.(*invokeFlowSynchronizationImpl).agentReadyGate)
 
 //@ func (*initFlowSynchronizationImpl).CancelWithError
 //@   modifies all(gateImpl.canceled), all(gateImpl.err)
@@ -853,3 +855,8 @@ package core
 //@   requires isInitFlow(initFlow) && isInvokeFlow(invokeFlow) && flowsDisjoint(initFlow.(*initFlowSynchronizationImpl), invokeFlow.(*invokeFlowSynchronizationImpl))
 //@   modifies nothing
 //@   ensures [new] typeis(r0, *registrationServiceImpl) && fresh(r0) && r0.(*registrationServiceImpl).runtime == nil && r0.(*registrationServiceImpl).state == registrationServiceOn && (forall k string :: !has(r0.(*registrationServiceImpl).externalAgents.byName, k) && !has(r0.(*registrationServiceImpl).internalAgents.byName, k)) && len(r0.(*registrationServiceImpl).externalAgents.byName) == 0 && len(r0.(*registrationServiceImpl).internalAgents.byName) == 0
+//@   ensures [wired-to-arguments] regWired(r0.(*registrationServiceImpl)) && r0.(*registrationServiceImpl).initFlow == initFlow && r0.(*registrationServiceImpl).invokeFlow == invokeFlow
+
+//@ func (*registrationServiceImpl).InitFlow
+//@   modifies nothing
+//@   ensures r0 == s.initFlow
